@@ -42,6 +42,15 @@ CLAIMED = {
         "Trusted: symx + z3; sklearn softmax replaced by its exp contract; predictions assumed unclipped in layer 2; shapes and "
         "(family, GEMINI, batch size, solver) grid listed in evidence.bounds; exact reals.",
         "DESIGN.md §4 C03", None),
+    "C13": (
+        "Bounded symbolic model checking on the real evaluate(): for every permutation pair of the shape the permuted run and the "
+        "original run are compared term by term (score invariant, gradient equivariant); sample-independent predictions give 0 (1/2 "
+        "for chi2); lower/upper bounds by solver inequalities (KL via tangent instances of log); on the CLOSED simplex every path "
+        "(zeros, one-hot rows, ties, coinciding clusters) must leave score and gradient defined; empty clusters get exactly zero "
+        "gradient and change the score by <= 1e-9 relative; MI of a balanced hard partition is within 1e-9 of log K.",
+        "Trusted: symx + z3; 'finite' is algebraic definedness in exact arithmetic (float overflow/underflow is outside); shapes "
+        "(2,2),(3,2),(2,3) with all permutations; transport stub canonical under relabelling; undischarged bounds are listed in the evidence.",
+        "DESIGN.md §4 C13", None),
 }
 
 NOT_APPLICABLE = {
